@@ -7,8 +7,9 @@ import DeepModel.Props.C07
 #print axioms C07.c07_ref_entry
 #print axioms C07.c07_closed_partial
 #print axioms C07.c07_watch_has_id
+#print axioms C07.c07_results_have_id
 #print axioms C07.c07_locals_self_ref_witness
-#print axioms C07.c07_capture_unguarded_witness
+#print axioms C07.c07_capture_guarded
 #print axioms C07.c07_closed_refuted
 #print axioms C07.c07_back_reference
 #print axioms C07.c07_cycles_terminate
